@@ -127,6 +127,13 @@ def build_case(cid, rng, schema, first_id=None, fillers=0):
     r1 = gen_row(rng, u, 0.1)
     r2 = gen_row(rng, u, 0.3)
     r3 = gen_row(rng, u, 0.2)
+    if rng.random() < 0.5:
+        # two tracks whose paths (and titles) differ only in letter case are two tracks
+        sw = bytes.fromhex(r1["path"]).decode(errors="ignore").swapcase()
+        if sw.encode().hex() != r1["path"] and sw.encode().hex() not in u["s"]:
+            r2["path"] = sw.encode().hex()
+            if r1.get("title"):
+                r2["title"] = bytes.fromhex(r1["title"]).decode(errors="ignore").swapcase().encode().hex()
     if rng.random() < 0.3:
         r1["origin_track_id"] = 0
     if rng.random() < 0.2:
@@ -145,6 +152,9 @@ def build_case(cid, rng, schema, first_id=None, fillers=0):
                                             "last_edit_time": rtime(rng, u["t"]), "is_explicitly_exported": False}})
     ops[2:2] = pre
     plan[2:2] = [("pre",)] * len(pre)
+    ops += [{"op": "trk_find_id_by_path", "path": r1["path"]}, {"op": "trk_find_id_by_path", "path": r2["path"]},
+            {"op": "trk_find_id_by_path", "path": GS.hx("no/such/path.mp3")}]
+    plan += [("find_by_path", 1), ("find_by_path", 2), ("find_by_path", None)]
     # per-column getters of row 1
     for c in ALL_COLS:
         ops.append({"op": "trk_get_col", "id": "$1", "col": c})
@@ -216,6 +226,10 @@ def build_case(cid, rng, schema, first_id=None, fillers=0):
             {"op": "pe_get_for_list", "list": "$p1"}]
     plan += [("pe_add", 1, e1), ("pe_get_after_add", 1), ("pe_add", 2, e2), ("pe_get_after_add", 2), ("pe_get_first_after_second",),
              ("pe_list",)]
+    # a second foreign entity for the same track whose database uuid differs from e2's only in letter case: a distinct row
+    e4 = dict(e2, database_uuid=GS.hx(bytes.fromhex(e2["database_uuid"]).decode().upper()), membership_reference=e2["membership_reference"] + 5000)
+    ops += [{"op": "pe_add_back", "row": e4}, {"op": "pe_get_for_list", "list": "$p1"}]
+    plan += [("pe_add_case_variant", e4), ("pe_list_case_variant", e2, e4)]
     # rows elsewhere that name a track id which is not in the track table (other software leaves such rows; add_back takes any
     # id): remove() of that id still names a nonexistent row
     e3 = {"list_id": "$p1", "track_id": 434343, "database_uuid": "$uuid", "next_entity_id": 0, "membership_reference": 0}
@@ -439,8 +453,32 @@ def judge_case(ctx, res):
         elif kind == "pe_list":
             if threw or [e["id"] for e in ret] != [ents[1]["id"], ents[2]["id"]]:
                 ctx.violation("entity-listing-wrong", f"{schema}: get_for_list does not list the two entities in insertion order", wit)
+        elif kind == "find_by_path":
+            ctx.count()
+            want = ids.get(p[1]) if p[1] else None
+            if threw or ret != want:
+                ctx.violation("find-by-path-wrong", f"{schema}: find_id_by_path gives {ret if not threw else ev['exc']['type']} for the path of row {p[1]} (id {want})", wit)
+        elif kind == "pe_add_case_variant":
+            ctx.count()
+            if threw:
+                ctx.violation("add-rejects-valid-row entity case-variant-uuid", f"{schema}: add_back of an entity whose database uuid differs from an existing "
+                              f"one's only in letter case threw {ev['exc']['type']}", wit)
+                return
+            ents[4] = dict(p[1], id=ret)
+            if ret == ents[2]["id"]:
+                ctx.violation("row-mismatch entity case-variant-uuid", f"{schema}: add_back of an entity whose database uuid differs only in letter case "
+                              f"returned the id of the existing row", wit)
+        elif kind == "pe_list_case_variant":
+            if threw:
+                ctx.violation("entity-listing-wrong", f"{schema}: get_for_list throws", wit)
+            else:
+                got = sorted((e.get("database_uuid"), e.get("membership_reference")) for e in ret if e.get("track_id") == 424242)
+                want = sorted((x["database_uuid"], x["membership_reference"]) for x in (p[1], p[2]))
+                if got != want:
+                    ctx.violation("row-mismatch entity case-variant-uuid", f"{schema}: the entities of one track whose database uuids differ only in "
+                                  f"letter case read back as {got}, written {want}", wit)
         elif kind == "pe_list_after_remove":
-            if threw or [e["id"] for e in ret] != [ents[2]["id"]]:
+            if threw or [e["id"] for e in ret if e.get("track_id") != 424242 or e["id"] == ents[2]["id"]] != [ents[2]["id"]]:
                 ctx.violation("entity-remove-wrong", f"{schema}: after remove() get_for_list = {ret}", wit)
         elif kind == "pl_get_after_remove":
             if threw or ret is not None:
